@@ -176,7 +176,18 @@ def decode(v):
             return cls(v["$enum"][1])
         if "$model" in v:
             cls = getattr(STATE["mods"]["input_types"], v["$model"])
-            return cls(**{k: decode(x) for k, x in v["kw"].items()})
+
+            def key(k):
+                # "$name:<GraphQL field>" = the PYTHON name of that field, read off the generated class
+                if k.startswith("$name:"):
+                    g = k[6:]
+                    for n, f in cls.model_fields.items():
+                        if (f.alias or n) == g:
+                            return n
+                    return g
+                return k
+
+            return cls(**{key(k): decode(x) for k, x in v["kw"].items()})
         if "$validate" in v:
             cls = getattr(STATE["mods"]["input_types"], v["$validate"])
             return cls.model_validate(v["value"])
